@@ -110,6 +110,9 @@ type Unit struct {
 	closures     map[*Term]*closureVal
 	needStrOrder bool
 	logsUsed     bool
+	goalInstCap  int // bound on instances of an existential of the goal (0 = default)
+	freshRegions []freshRegion // deep copies and API reads: see regionFacts
+	instCap      int // bound on instances per quantified hypothesis in the ground stage (0 = default)
 	ifaceNilDone bool
 	dcBound      *Term // allocation counter when the current DeepCopy started
 	wantsSent    bool // some postcondition talks about logsent(k): snapshot objects sent by API writes
@@ -378,7 +381,7 @@ func (u *Unit) havoc(st *State, guard *Term, fr *FrameSpec) {
 		// nothing visible changes: only allocation may have happened
 		na := u.c.Fresh("alloc", SInt)
 		u.c.allocBase[na.id] = true
-		u.assume(guard, u.c.Le(st.alloc, na))
+		u.assume(nil, u.c.Le(st.alloc, na)) // a fresh counter: monotone on every path
 		u.c.allocLB[na.id] = st.alloc
 		st.alloc = na
 		return
@@ -400,7 +403,7 @@ func (u *Unit) havoc(st *State, guard *Term, fr *FrameSpec) {
 	// objects may have been allocated
 	na := u.c.Fresh("alloc", SInt)
 	u.c.allocBase[na.id] = true
-	u.assume(guard, u.c.Le(st.alloc, na))
+	u.assume(nil, u.c.Le(st.alloc, na)) // a fresh counter: monotone on every path
 	if guard == nil || guard.IsTrue() || true {
 		// the counter only grows on every path, so the bound is recorded unconditionally for the simplifier
 		u.c.allocLB[na.id] = st.alloc
@@ -550,5 +553,53 @@ func (u *Unit) verChain(arr, R *Term) {
 		default:
 			return
 		}
+	}
+}
+
+
+// freshRegion records an operation (deep copy, API read) that builds a tree of newly allocated objects: every reference
+// held, right after the operation, by an object allocated during it (or by the object it filled) is nil or allocated
+// during it. The quantified form is assumed once; regionFacts adds the ground instance for an address being read, so
+// that the fact is available without trigger matching.
+type freshRegion struct {
+	guard         *Term
+	before, after *Term
+	objRoot       *Term // root of the object filled by an API read (nil for a deep copy)
+	refArr, slArr *Term // H:Ref and H:Slice right after the operation
+}
+
+func (u *Unit) regionFacts(addr *Term, s *Sort) {
+	if addr.open || (s != SRef && s != SSlice) || len(u.freshRegions) == 0 {
+		return
+	}
+	c := u.c
+	for _, r := range u.freshRegions {
+		inNew := func(x *Term) *Term {
+			if r.after == nil {
+				return c.Le(r.before, c.Root(x))
+			}
+			return c.And(c.Le(r.before, c.Root(x)), c.Lt(c.Root(x), r.after))
+		}
+		region := inNew(addr)
+		if r.objRoot != nil {
+			region = c.Or(c.Eq(c.Root(addr), r.objRoot), region)
+		}
+		if region.IsFalse() || (r.after == nil || r.objRoot != nil) && !region.IsTrue() {
+			// API reads and plain deep copies: only addresses that certainly lie in the region get the ground fact,
+			// the others are left to the quantified form (keeps the number of facts per load small)
+			continue
+		}
+		var v *Term
+		if s == SRef {
+			v = c.Select(r.refArr, addr)
+		} else {
+			v = c.SArr(c.Select(r.slArr, addr))
+		}
+		key := fmt.Sprintf("region|%d|%d|%d", r.before.id, addr.id, v.id)
+		if u.pureApps[key] {
+			continue
+		}
+		u.pureApps[key] = true
+		u.assume(r.guard, c.Implies(region, c.Or(c.Eq(v, c.Nil()), inNew(v))))
 	}
 }
